@@ -46,6 +46,8 @@ def cases(tier, seed):
                     if tier == "quick" and find in ("other", "minor") and (stop or col):
                         continue
                     out.append({"h": "H12", "fam": "times", "n": nn, "ttl": 3, "collect": col, "stop": stop, "find": find, "_w": 8 * nn})
+    if tier == "quick":
+        out.append({"h": "H12", "fam": "times", "n": 2, "ttl": 3, "collect": 0, "stop": 1, "find": "wild", "_w": 16})
     return out
 
 
